@@ -56,6 +56,9 @@ struct Probe {
     path: Vec<String>,
     /// use inside the nested block?
     nested_use: bool,
+    /// imports written in the then-branch of an `if` whose else-branch holds the use:
+    /// they must resolve, but the use must not see them
+    sibling_imports: Vec<Vec<String>>,
 }
 
 struct Tree {
@@ -119,7 +122,16 @@ fn gen_ref(c: &mut Choices, mods: &[Module], from: usize, want_fn: Option<bool>)
         let item = if want_fn.unwrap_or(true) { FN_NAMES[c.below(3)] } else { CONST_NAMES[c.below(2)] };
         return gen_path(c, item);
     }
-    let (tm, item) = cands[c.below(cands.len())].clone();
+    let (mut tm, mut item) = cands[c.below(cands.len())].clone();
+    if c.chance(30) {
+        // a name that module `tm` only imports: not a member of `tm`, so `tm.name` must not resolve
+        let with_imports: Vec<usize> = (0..mods.len()).filter(|m| !mods[*m].imports.is_empty()).collect();
+        if !with_imports.is_empty() {
+            tm = with_imports[c.below(with_imports.len())];
+            let imps = &mods[tm].imports;
+            item = imps[c.below(imps.len())].last().unwrap().clone();
+        }
+    }
     let tp = path_of(tm);
     let fp = path_of(from);
     let names = |ms: &[usize]| -> Vec<String> { ms.iter().map(|m| mods[*m].name.clone()).collect() };
@@ -242,7 +254,15 @@ fn decode(ctl: &[u8]) -> Tree {
         }
         let local = if c.chance(40) { Some((CONST_NAMES[c.below(2)].to_string(), 700 + i as i32)) } else { None };
         let nested_use = c.chance(128) || block_imports.iter().any(|(d, _)| *d == 1);
-        probes.push(Probe { module, block_imports, import_after_use: c.chance(100), local, path, nested_use });
+        let import_after_use = c.chance(100);
+        let sibling_imports = if c.chance(60) {
+            let q = gen_ref(&mut c, &mods, module, Some(want_fn));
+            if q.len() >= 2 { vec![q] } else { vec![] }
+        } else {
+            vec![]
+        };
+        let nested_use = nested_use || !sibling_imports.is_empty();
+        probes.push(Probe { module, block_imports, import_after_use, local, path, nested_use, sibling_imports });
     }
     Tree { mods, probes }
 }
@@ -367,6 +387,9 @@ impl Tree {
                 // import in the nested block while the use is outside: simply not visible
             }
         }
+        for imp in &p.sibling_imports {
+            self.resolve_path(m, imp, &|n| self.block_lookup_no_imports(p, n, 0))?;
+        }
         self.resolve_path(m, &p.path, &|n| lookup(n, from))
     }
 
@@ -422,7 +445,22 @@ fn render_module(t: &Tree, m: usize) -> String {
         if !p.import_after_use {
             let _ = writeln!(s, "    {}", imports_at(0));
         }
-        if p.nested_use {
+        if !p.sibling_imports.is_empty() {
+            let sib: Vec<String> = p.sibling_imports.iter().map(|q| format!("import {};", q.join("."))).collect();
+            let _ = writeln!(s, "    let r = if false {{");
+            let _ = writeln!(s, "        {}", sib.join(" "));
+            let _ = writeln!(s, "        0");
+            let _ = writeln!(s, "    }} else {{");
+            if !p.import_after_use {
+                let _ = writeln!(s, "        {}", imports_at(1));
+            }
+            let _ = writeln!(s, "        let q = {use_expr};");
+            if p.import_after_use {
+                let _ = writeln!(s, "        {}", imports_at(1));
+            }
+            let _ = writeln!(s, "        q");
+            let _ = writeln!(s, "    }};");
+        } else if p.nested_use {
             let _ = writeln!(s, "    let r = if true {{");
             if !p.import_after_use {
                 let _ = writeln!(s, "        {}", imports_at(1));
@@ -566,7 +604,7 @@ impl WorkerState for W {
             }
         };
         if self.excl_super_import {
-            let hit = t.probes.iter().any(|p| t.through_import_after_super(p.module, &p.path) || p.block_imports.iter().any(|(_, q)| t.through_import_after_super(p.module, q)))
+            let hit = t.probes.iter().any(|p| t.through_import_after_super(p.module, &p.path) || p.block_imports.iter().any(|(_, q)| t.through_import_after_super(p.module, q)) || p.sibling_imports.iter().any(|q| t.through_import_after_super(p.module, q)))
                 || (0..t.mods.len()).any(|m| t.mods[m].imports.iter().any(|q| t.through_import_after_super(m, q)));
             if hit {
                 let mut o = Outcome::pass();
